@@ -42,7 +42,7 @@ type Report struct {
 	Trusted  []string
 	Stable   func(string) string // construct → rename-stable form (set after loading)
 	verifDir string
-	cfg      string              // current configuration label
+	cfg      string // current configuration label
 	floor    map[string]int
 	count    map[string]int
 	start    time.Time
